@@ -179,10 +179,13 @@ theorem compileRoutines_spec {ms : Macros} (hms : MsOK ms) : ∀ (rs : List Rout
     exact inv
   | cons r rs ih =>
     intro active t s t' s' hok inv h
-    simp only [compileRoutines, bind_ok] at h
-    obtain ⟨ops, s1, h1, h2⟩ := h
-    have sp := compileBody_spec hms true (hok r (by simp)) _ _ _ h1
-    exact ih _ _ _ _ _ (fun x hx => hok x (by simp [hx])) ((inv.enlarge _).put _ _ _ sp) h2
+    simp only [compileRoutines] at h
+    split at h
+    · simp [fail_ok] at h
+    · simp only [bind_ok] at h
+      obtain ⟨ops, s1, h1, h2⟩ := h
+      have sp := compileBody_spec hms true (hok r (by simp)) _ _ _ h1
+      exact ih _ _ _ _ _ (fun x hx => hok x (by simp [hx])) ((inv.enlarge _).put _ _ _ sp) h2
 
 /-! ### the front end -/
 
